@@ -313,7 +313,7 @@ PROPS = {
                                      "correspondence scope: every generated graph except those with schema ids and prefix-sibling documents (the areas of the open findings F9, F10, F10b), which are judged by the oracle only; multi-hop parameter/response/path-item chains and imported circular schemas are compared since the repairs of F7 and F8",
                                      "Codec/Codec.v (typed decoding of every resolved target) and Base/Url.v (normalizeURI, rebase)"],
         "level_text": "Coq theorems (Props/C10.v): the entry points are set-up code around the same core: they terminate under the same pigeonhole bound, read `#/` references in the supplied root (cached under the pseudo location), keep the cache discipline, and INHERIT THE MEANING THEOREMS of C02: ExpandSchemaWithBasePath and ExpandSchema(root) return a schema bisimilar to the element in its context whenever the initial cache is consistent with the loader; ExpandParameter/ExpandResponse against a base location return the end of the element's $ref chain with a bisimilar schema; discharged on the example graph. Non-modification of root and options cannot be exhibited by a functional model and is checked on the implementation.",
-        "level_note": 'Partial (aliasing): root/options mutation is a runtime property (oracle: before/after serialisation).',
+        "level_note": 'Partial (aliasing): root/options mutation is a runtime property (oracle: before/after serialisation). ELEMENT ENTRY POINTS WITHOUT SIDE CONDITIONS (C10_element_with_base_sound, C10_element_with_root_sound over Expand/ExpandChain.v, ExpandSpecSim.v): on a checked graph, from whatever consistent cache the caller supplies, what ExpandParameter/ExpandResponse (against a location) and Expand{Parameter,Response}WithRoot (against a supplied root) return is the end of the chain of the element with a schema that is bisimilar when read at the root location and whose remaining refs lie on cycles; that the chain is followed to its end is now proved, not assumed.',
         "technique": "Coq proof about a hand-written executable model of the expander + differential run (exact on acyclic graphs, unfoldings on cyclic ones) + property oracle on the implementation",
         "assumptions": ["loader is a function of the URL during one call", "documents are in normal form (reference objects carry only $ref)"],
     },
